@@ -182,7 +182,7 @@ class ModbusAsciiFramer(ModbusFramer):
                 else:
                     _logger.error("Not a valid unit id - {}, "
                                   "ignoring!!".format(self._header['uid']))
-                    self.resetFrame()
+                    self.advanceFrame()
             elif (self._buffer.startswith(self._start) and
                   self._buffer.find(self._end) != -1):
                 # a complete frame that failed the hex/LRC check: discard it
